@@ -36,6 +36,7 @@ type cand struct {
 	scriptOk       [][]bool // per tx, per input (nil for the coinbase)
 	found          [][]bool // per tx, per input: the sequential semantics finds a coin for this input
 	vouch          []bool   // per tx: chain.TrustedTxChecker answers true (nil: the hook is not installed) — pool.go
+	spentOuts      [][]*btc.TxOut // per tx, per input: the coin the sequential semantics names (empty TxOut when none)
 }
 
 // ---- script tokeniser and sigop counting as Bitcoin Core defines them (no OP_RETURN exception) ----
